@@ -31,7 +31,7 @@ ASSUMPTIONS = ["problems whose initial state violates invariants/bounds are assu
                "hash-consing tables keyed syntactically for symbolic constants (S2'); counterexamples are replayed with the real tables",
                "R (vf/refsem.py) is the documented semantics"]
 
-METRICS = ["none", "cost-const", "cost-fluent", "length", "min-final", "max-final", "oversub", "oversub-undef"]
+METRICS = ["none", "cost-const", "cost-fluent", "length", "min-final", "max-final", "oversub", "oversub-undef", "oversub-undef-first"]
 
 
 def _add_metric(ctx, g, kind):
@@ -58,6 +58,9 @@ def _add_metric(ctx, g, kind):
                                 em.LT(em.FluentExp(g.n), em.Int(g.C("c"))): 2}, environment=env)
     elif kind == "oversub-undef":
         m = M.Oversubscription({em.FluentExp(g.b): 2, em.LE(em.FluentExp(g.n), em.FluentExp(g.u)): 5}, environment=env)
+    elif kind == "oversub-undef-first":  # the soft goal that reads an undefined fluent comes FIRST: later ones must still count
+        m = M.Oversubscription({em.LE(em.FluentExp(g.n), em.FluentExp(g.u)): 5, em.FluentExp(g.b): 2,
+                                em.FluentExp(g.p, [em.ObjectExp(g.o1)]): 3}, environment=env)
     else:
         raise ValueError(kind)
     prob.add_quality_metric(m)
@@ -121,7 +124,7 @@ def h_validate(ctx, sk, metric, max_len, lens=None):
             fv = r.expr(m.expression, s)
             valid = z3.And(valid, fv.d)  # an undefined final value cannot be reported
             expected = fv.t
-        elif metric in ("oversub", "oversub-undef"):
+        elif metric in ("oversub", "oversub-undef", "oversub-undef-first"):
             expected = z3.Sum([z3.If(r.holds(gl, s), znum(gain), 0) for gl, gain in m.goals.items()])
         elif metric == "length":
             expected = z3.IntVal(len(steps))
@@ -161,7 +164,7 @@ def shards(tier, seed):
     combos = []
     if tier == "quick":
         combos = [(0, "none"), (0, "cost-const"), (0, "cost-fluent"), (0, "min-final"), (0, "oversub"), (1, "max-final"), (1, "length"),
-                  (2, "oversub-undef"), (2, "none"), (3, "cost-fluent"), (4, "none"), (4, "oversub-undef"), (5, "min-final"), (6, "length"),
+                  (2, "oversub-undef"), (2, "oversub-undef-first"), (2, "none"), (3, "cost-fluent"), (4, "none"), (4, "oversub-undef"), (5, "min-final"), (6, "length"),
                   (5, "none")]
     else:
         combos = [(i, mk) for i in range(len(SKS)) for mk in METRICS]
